@@ -10,7 +10,7 @@ for d in seeded/${1:-*}/; do
   n=$(basename $d)
   [ -f $d/meta.json ] || continue
   checks=$(python3 -c "import json;print(' '.join(json.load(open('$d/meta.json'))['detected_by'].keys()))")
-  git -C /repo apply $d/patch.diff || { echo "$n: patch does not apply"; rc=1; continue; }
+  git -C /repo apply /verif/$d/patch.diff || { echo "$n: patch does not apply"; rc=1; continue; }
   for c in $checks; do
     out=$(./run.sh $c quick 2>/dev/null); e=$?
     if echo "$out" | grep -q '^VIOLATION'; then echo "$n $c DETECTED ($(echo "$out" | grep -c '^VIOLATION') violations)"; else echo "$n $c MISSED exit=$e"; rc=1; fi
